@@ -77,10 +77,11 @@ type Explorer struct {
 	// Digest computes the end-state digest of an execution (distinct outcomes are counted). Optional.
 	Digest func(x *Exec) string
 
-	Stats   Stats
-	Found   []*Found
-	Sample  *Found // the default schedule, for the evidence
-	Sample2 *Found // the first non-default schedule
+	Stats    Stats
+	Found    []*Found
+	Warnings []string
+	Sample   *Found // the default schedule, for the evidence
+	Sample2  *Found // the first non-default schedule
 
 	states   map[uint64]int
 	trans    map[uint64]struct{}
@@ -373,6 +374,9 @@ func (e *Explorer) explore(prefix []string, expect []Point, used int) {
 		// one retry
 		x = e.runOnceUsed(prefix, expect, true, used)
 		if x.Outcome == "diverged" {
+			if len(e.Warnings) < 3 {
+				e.Warnings = append(e.Warnings, fmt.Sprintf("replay diverged twice in %s after %d steps: %s", e.Sc.Name, len(prefix), x.Diverged))
+			}
 			e.Stats.Diverged++
 			e.Stats.Executions++
 			e.Stats.Outcomes["diverged"]++
